@@ -87,6 +87,7 @@ theorem asciiStep_good (st : OSt) (ch : Char) (h : GoodO st) (hb : st.s.bh ≤ 1
 theorem atasciiStep_good (st : OSt) (ch : Char) (h : GoodO st) (hb : st.s.bh ≤ 1073741854) :
     okOrOv (atasciiStep st ch) GoodOR := by
   have ⟨g1, g2, g3⟩ := h
+  have hy0 : 0 ≤ st.c.y := g2.2.2.1
   have := g1.tw1
   unfold atasciiStep
   simp only [up, down, left, right]
@@ -101,10 +102,12 @@ theorem atasciiStep_good (st : OSt) (ch : Char) (h : GoodO st) (hb : st.s.bh ≤
     | exact printValue_good { st with esc := false } _ h hb
     | exact oliftSC_good st _ h (printChar_step _ _ g1 g2 hb)
     | exact oliftSC_good { st with esc := false } _ h (printChar_step _ _ g1 g2 hb)
+    | (exfalso; rename_i hh; exact not_lineOpPanics _ _ g1 hy0 hh)
 
 theorem petsciiStep_good (st : OSt) (ch : Char) (h : GoodO st) (hb : st.s.bh ≤ 1073741854) :
     okOrOv (petsciiStep st ch) GoodOR := by
   have ⟨g1, g2, g3⟩ := h
+  have hy0 : 0 ≤ st.c.y := g2.2.2.1
   have := g1.tw1
   unfold petsciiStep
   simp only [up, down, left, right]
@@ -119,6 +122,7 @@ theorem petsciiStep_good (st : OSt) (ch : Char) (h : GoodO st) (hb : st.s.bh ≤
     | exact goodO_x st 0 _ h (Int.le_refl 0) (by omega)
     | exact goodO_x st (st.s.tw - 1) _ h (by omega) (by omega)
     | exact goodO_x st _ st.esc h (by omega) (by have := g3.2.1; have := g2.1; omega)
+    | (exfalso; rename_i hh; exact not_lineOpPanics _ _ g1 hy0 hh)
 
 /-! ## fixed 40x24 pages -/
 def GoodF (st : OSt) : Prop := GoodO st ∧ Fixed st
